@@ -78,12 +78,30 @@ def tasks_c03(tier, seed):
     return ts
 
 
+def tasks_c06(tier, seed):
+    return seq("c06", tier, shards=16)
+
+
+def tasks_c17(tier, seed):
+    return seq("c17", tier, shards=16 if tier == "thorough" else 8)
+
+
+def tasks_c18(tier, seed):
+    return seq("c18", tier, shards=4)
+
+
 PLANS = {
     "C01": {"tasks": tasks_c01, "level": "model_checking",
             "assumptions": ["scheduling points = sync/atomic/channel/timer operations of the rewritten packages + harness emits",
                             "sequential consistency; data-race freedom outside visible operations is checked by C16"]},
     "C02": {"tasks": tasks_c01, "level": "model_checking",
             "assumptions": ["same as C01"]},
+    "C06": {"tasks": tasks_c06, "level": "model_checking",
+            "assumptions": ["reference matcher = brute-force token-wise most-specific match", "patterns with a repeated tag name and listeners without handlers are outside the enumerated space"]},
+    "C17": {"tasks": tasks_c17, "level": "model_checking",
+            "assumptions": ["inputs the documentation leaves undefined ($ inside a tag name, repeated tags) are excluded and counted"]},
+    "C18": {"tasks": tasks_c18, "level": "model_checking",
+            "assumptions": ["encoding/json generic decoding is the reference for JSON equality", "an explicit soft:false is the same RES value as an absent soft member"]},
     "C03": {"tasks": tasks_c03, "level": "model_checking",
             "assumptions": ["Shutdown is called from outside callbacks", "envnats models the connection"]},
 }
